@@ -141,8 +141,9 @@ impl Fq2 {
             });
         }
 
-        let c1 = Fq::from_slice(&s[..32]).unwrap();
-        let c0 = Fq::from_slice(&s[32..]).unwrap();
+        // each component must be a canonical field element (below q)
+        let c1 = Fq::from_slice(&s[..32]).ok_or(Error::NotMember)?;
+        let c0 = Fq::from_slice(&s[32..]).ok_or(Error::NotMember)?;
 
         Ok(Fq2 { c0, c1 })
     }
